@@ -321,7 +321,11 @@ class ElementList(MutableSequence):
         if isinstance(value, basestring):  # if the value is a basestring, parse it
             child = self.element.parse_child(value, child_name=child_name, reference=child_ref)
         elif isinstance(value, Element):  # it is already an instance of Element
-            child = value
+            if value.parent is not None and value.name == child_name:
+                # the element already belongs to a parent (maybe this one): as for ElementProxy, assign a copy
+                child = self.element.parse_child(value.to_er7(), child_name=child_name, reference=child_ref)
+            else:
+                child = value
         elif isinstance(value, BaseDataType):
             child = self.create_element(name, False, reference)
             child.value = value
